@@ -299,4 +299,108 @@ Section CompleteWild.
       pose proof (Hcmax p (prefix_trans _ _ _ Hp (base_name_prefix q)) He). unfold len in Hl. lia.
   Qed.
 
+  Lemma cover_not_owner t x :
+    In x ns -> covers soa t x = true -> ~ In t (owners z).
+  Proof.
+    intros Hx Hc Ht. pose proof (GEN x Hx) as G. pose proof (genuine_owner z x G) as Ho.
+    apply covers_spec in Hc. destruct Hc as [Hot Hc].
+    destruct G as (_ & _ & [[Hlt Hgap]|[Hnx Hmax]]).
+    - destruct Hc as [Htx|Hs].
+      + apply (Hgap t Ht). auto.
+      + destruct SOA as [E|E]; rewrite E in Hs; [discriminate|]. inversion Hs as [E2].
+        rewrite <- E2 in Hlt. exact (not_before_apex z WF _ Ho Hlt).
+    - exact (nlt_irrefl _ (nlt_nle_trans _ _ _ Hot (Hmax t Ht))).
+  Qed.
+
+  Lemma prefix_of_prefixes (a b : name) : prefix a q -> prefix b q -> (length a <= length b)%nat -> prefix a b.
+  Proof.
+    intros Ha Hb Hl. rewrite (prefix_is_firstn a q Ha), (prefix_is_firstn b q Hb).
+    exists (skipn (length a) (firstn (length b) q)).
+    rewrite <- (firstn_skipn (length a) (firstn (length b) q)) at 1.
+    f_equal. rewrite firstn_firstn. f_equal. lia.
+  Qed.
+
+  (* NODATA at the wildcard of the closest encloser (the response carries the SOA): the NSEC
+     covering the name and the wildcard's own NSEC suffice, provided no other wildcard NSEC
+     enclosing the query name is in the list *)
+  Lemma complete_wildcard_nodata qt ce c r :
+    soa = Some (z_apex z) -> prefix (z_apex z) q -> k_star q = false ->
+    ~ exists_name z q -> is_ce z q ce ->
+    In c ns -> covers soa q c = true ->
+    In r ns -> n_owner r = prepend_star ce ->
+    ~ has_type z (prepend_star ce) qt -> ~ has_type z (prepend_star ce) T_CNAME ->
+    (forall r', In r' ns -> is_wildcard (n_owner r') = true ->
+                prefix (base_name (n_owner r')) q -> n_owner r' = prepend_star ce) ->
+    verify_nsec q qt soa NoError [] ns = Secure.
+  Proof.
+    intros Hs Hz Hst Hne Hce Hc Hcc Hr Hro Hqt Hcn Honly.
+    rewrite verify_nsec_eq; [|discriminate|].
+    2:{ intros s E. rewrite Hs in E. inversion E; subst. now apply zone_of_prefix. }
+    unfold verify_body.
+    rewrite (find_none_all (fun r => name_eqb q (n_owner r)) ns).
+    2:{ intros x Hx. destruct (name_eqb q (n_owner x)) eqn:E; [|reflexivity].
+        apply name_eqb_eq in E. exfalso. apply Hne. exists q. split; [|apply prefix_refl].
+        rewrite E. apply (genuine_owner z x (GEN x Hx)). }
+    destruct (find_exists (covers soa q) ns c Hc Hcc) as [cov Hf].
+    unfold find_cover at 1. rewrite Hf. apply find_some in Hf. destruct Hf as [Hin Hcov].
+    rewrite (nce_with_soa z WF q soa ns GEN SOA cov Hst Hs Hz Hin Hcov Hne).
+    pose proof (ce_of_is_ce z WF soa q cov (GEN cov Hin) SOA Hcov) as Hce2.
+    rewrite (is_ce_unique z q _ _ Hce2 Hce).
+    pose proof (genuine_owner z r (GEN r Hr)) as Hwo. rewrite Hro in Hwo.
+    unfold find_cover at 1.
+    rewrite (find_none_all (covers soa (prepend_star ce)) ns).
+    2:{ intros x Hx. destruct (covers soa (prepend_star ce) x) eqn:E; [|reflexivity].
+        exfalso. exact (cover_not_owner _ x Hx E Hwo). }
+    cbn [negb andb].
+    destruct Hce as (Hcp & Hcex & Hcmax).
+    assert (Hcq : ce <> q) by (intros E; apply Hne; now rewrite <- E).
+    (* the wildcard recovered from the NSECs is *.ce *)
+    assert (Hwb : wildcard_base q [] ns = Some (prepend_star ce)).
+    { unfold wildcard_base.
+      set (f := fun r0 => is_wildcard (n_owner r0) && zone_of (base_name (n_owner r0)) q).
+      assert (Hrf : In r (filter f ns)).
+      { apply filter_In. split; [exact Hr|]. unfold f.
+        rewrite Hro, is_wildcard_star, base_name_star. cbn. now apply zone_of_prefix. }
+      destruct (min_by_key_some (fun r0 => num_labels (n_owner r0)) (filter f ns)) as [x Hx].
+      { intros E. rewrite E in Hrf. destruct Hrf. }
+      rewrite Hx. cbn [option_map]. apply min_by_key_in in Hx. apply filter_In in Hx.
+      destruct Hx as [Hxin Hxf]. unfold f in Hxf. apply andb_true_iff in Hxf.
+      destruct Hxf as [H1 H2]. apply zone_of_prefix in H2. now rewrite (Honly x Hxin H1 H2). }
+    rewrite Hwb.
+    assert (Hncm : no_closer_matches q soa ns (Some (prepend_star ce)) = true).
+    { unfold no_closer_matches. rewrite Hs.
+      assert (Hac : prefix (z_apex z) ce).
+      { apply prefix_of_prefixes; auto. apply Hcmax; [exact Hz|].
+        exists (z_apex z). split; [apply WF|apply prefix_refl]. }
+      assert (Hzw : zone_of (z_apex z) (prepend_star ce) = true).
+      { apply zone_of_prefix. unfold prepend_star. exact (prefix_trans _ _ _ Hac (prefix_app ce [star])). }
+      rewrite Hzw, (proj2 (zone_of_prefix _ _) Hz). cbn [andb].
+      rewrite num_labels_star, base_name_star, (proj2 (zone_of_prefix ce q) Hcp).
+      pose proof (strict_prefix_short q ce Hcp Hcq) as Hl.
+      assert (Hq : q <> []).
+      { intros E. apply Hcq. apply prefix_antisym; [exact Hcp|]. rewrite E. apply prefix_nil. }
+      pose proof (base_name_length q Hq) as Hbl.
+      assert (E1 : N.ltb (num_labels q) (len ce) = false).
+      { apply N.ltb_ge. pose proof (num_labels_ge q). unfold len in *. lia. }
+      rewrite E1. cbn [negb andb]. rewrite <- Hs.
+      apply (closer_loop_true cov (prepend_star ce) Hst Hin Hcov).
+      - apply base_name_prefix.
+      - intros E. rewrite E in Hbl. lia.
+      - intros p Hp Hlp He. rewrite num_labels_star in Hlp.
+        pose proof (Hcmax p (prefix_trans _ _ _ Hp (base_name_prefix q)) He). unfold len in Hlp. lia. }
+    assert (Hex : existsb (fun r0 => name_eqb (n_owner r0) (prepend_star ce)
+                                     && negb (contains (n_types r0) qt)
+                                     && negb (contains (n_types r0) T_CNAME)
+                                     && no_closer_matches q soa ns (Some (prepend_star ce))) ns = true).
+    { apply existsb_exists. exists r. split; [exact Hr|].
+      rewrite Hncm, (proj2 (name_eqb_eq _ _) Hro). cbn [andb].
+      pose proof (genuine_types z WF r) as Ht. rewrite Hro in Ht.
+      destruct (contains (n_types r) qt) eqn:E1.
+      { exfalso. apply Hqt. now apply (Ht qt (GEN r Hr)). }
+      destruct (contains (n_types r) T_CNAME) eqn:E2.
+      { exfalso. apply Hcn. now apply (Ht T_CNAME (GEN r Hr)). }
+      reflexivity. }
+    rewrite Hex. reflexivity.
+  Qed.
+
 End CompleteWild.
